@@ -155,9 +155,21 @@ namespace options
     {
         std::vector<options::user_input> args;
 
+        bool after_double_dash = false;
+
         for (int i = 1; i < argc; i++)
         {
+            if (after_double_dash)
+            {
+                // everything after the first double dash is a positional, so don't look at it
+                args.emplace_back(options::user_input::verbatim(argv[i]));
+
+                continue;
+            }
+
             args.emplace_back(argv[i]);
+
+            after_double_dash = args.back().is_double_dash();
         }
 
         return parse(args);
